@@ -184,7 +184,8 @@ class World:
                 kind = f.kind
                 self._arg = f.arg
                 break
-        self.log.add("seam", k, label, _TMP_PID.sub("tmp_P_", relp) if relp else relp, kind)
+        # no pid in the event log: temp names (ours and any the code under test derives from getpid()) vary per process
+        self.log.add("seam", k, label, _TMP_PID.sub("tmp_P_", relp).replace(str(os.getpid()), "PID") if relp else relp, kind)
         if kind is not None:
             self.fired.append((kind, label, relp, self.cur_op))
         if self.on_seam is not None:
@@ -359,6 +360,18 @@ class World:
         self.after(k5, "unlink")
         return dst
 
+    def os_open(self, path, flags, mode=0o777, **kw):
+        """os.open called directly (a hand-rolled temp file)"""
+        kind = self.seam("open-fd", path)
+        if kind in ("eio", "enospc"):
+            raise OSError(errno.EIO, "injected " + kind, os.fspath(path))
+        fd = _real_os.open(path, flags, mode, **kw)
+        if flags & (os.O_WRONLY | os.O_RDWR):
+            self.fd_paths[fd] = os.fspath(path)
+            self.touched.append(self.rel(path))
+        self.after(kind, "open-fd")
+        return fd
+
     def os_rename(self, which, src, dst):
         """os.rename / os.replace called directly (not through shutil.move)"""
         kind = self.seam("rename", dst)  # one label for rename/replace/shutil.move: fault plans stay valid
@@ -469,6 +482,9 @@ class OSFacade:
 
     def close(self, fd):
         return self._w.close(fd)
+
+    def open(self, path, flags, mode=0o777, **kw):
+        return self._w.os_open(path, flags, mode, **kw)
 
     def rename(self, src, dst):
         return self._w.os_rename("rename", src, dst)
